@@ -192,6 +192,12 @@ func checkSaveMap(w *World, r *Report, m *FieldMap, srcType string) {
 		}
 		okName := e.SrcField == e.Field
 		okConv := e.Conv == "" || convInverse[e.Conv] != ""
+		if e.Field == "Tasks" && e.SrcField == "Tasks" && e.Conv != "" && strings.HasSuffix(m.Target, "PersistedJob") {
+			// the task list converted by a helper of the module: the element table (PersistedTask ← jobTask) is checked where
+			// the helper builds the elements, the freshness of the list by tables.tasks-saved
+			r.OK("tables.save", key, pos, "task list converted by "+e.Conv+" (elements: PersistedTask table)")
+			continue
+		}
 		switch {
 		case !okName:
 			r.Viol("tables.save", key, pos, fmt.Sprintf("cross-wired: store field %s is filled from %s.%s", e.Field, e.SrcType, e.SrcField))
